@@ -51,6 +51,25 @@ class Path:
         return f"<{self.kind} {self.text[:120]} if {self.conds}>"
 
 
+_NEG_TEXT_CACHE: Dict[str, Optional[str]] = {}
+
+
+def _neg_text(text: str) -> Optional[str]:
+    """the comparison that is true exactly when the atomic comparison `text` is false (None when `text` is not a single comparison)"""
+    if text in _NEG_TEXT_CACHE:
+        return _NEG_TEXT_CACHE[text]
+    from . import wire
+    out = None
+    try:
+        t = ast.parse(text, mode="eval").body
+        if isinstance(t, ast.Compare) and len(t.ops) == 1 and type(t.ops[0]) in wire._NEG_CMP:
+            out = norm_text(ast.Compare(left=t.left, ops=[wire._NEG_CMP[type(t.ops[0])]()], comparators=t.comparators), limit=100000).replace('"', "'")
+    except SyntaxError:
+        out = None
+    _NEG_TEXT_CACHE[text] = out
+    return out
+
+
 def ptext(e) -> str:
     """normalised text without blanks, single-quoted strings"""
     if e is None:
@@ -206,6 +225,13 @@ def path_summaries(f: FuncInfo, limit: int = 512, body: Optional[List[ast.stmt]]
             return None
         if (text, truth) in conds:
             return conds
+        # the same fact in the other comparison polarity (`x is None` false = `x is not None` true)
+        neg = _neg_text(text)
+        if neg is not None:
+            if (neg, truth) in conds:
+                return None
+            if (neg, not truth) in conds:
+                return conds
         return conds + [(text, truth)]
 
     def push_all(conds, t, truth, env):
@@ -233,6 +259,17 @@ def path_summaries(f: FuncInfo, limit: int = 512, body: Optional[List[ast.stmt]]
         s = sub(t, env)
         while isinstance(s, ast.UnaryOp) and isinstance(s.op, ast.Not):
             s, truth = s.operand, not truth
+        # `E is None` / `E is not None` after substitution: a literal decides it; a copy of E is None exactly when E is
+        if isinstance(s, ast.Compare) and len(s.ops) == 1 and isinstance(s.ops[0], (ast.Is, ast.IsNot)) and isinstance(s.comparators[0], ast.Constant) and s.comparators[0].value is None:
+            l = s.left
+            while isinstance(l, ast.Call) and norm_text(l.func) in ("copy.copy", "copy.deepcopy") and len(l.args) == 1 and not l.keywords:
+                l = l.args[0]
+            if isinstance(l, ast.Constant):
+                s = ast.Constant(value=(l.value is None) == isinstance(s.ops[0], ast.Is))
+            elif isinstance(l, (ast.List, ast.Tuple, ast.Dict, ast.ListComp, ast.JoinedStr)):
+                s = ast.Constant(value=isinstance(s.ops[0], ast.IsNot))
+            elif l is not s.left:
+                s = ast.Compare(left=l, ops=s.ops, comparators=s.comparators)
         if isinstance(s, ast.Constant):
             return [conds] if bool(s.value) == truth else []
         if isinstance(s, ast.BoolOp):
